@@ -645,7 +645,7 @@ func runC05(c *Ctx) {
 			}
 			var beforeGuard, lazyGuard bool
 			var nowVal ssa.Value
-			for _, g := range guardsOfInstr(r) {
+			for _, g := range guardsOnAllPaths(r.Block()) {
 				v, truth := g.asBool()
 				if cl, ok := v.(*ssa.Call); ok && callName(cl) == "(time.Time).Before" && truth {
 					if k, ok := loadedField(cl.Call.Args[1]); ok && k == IT+".expirationTime" {
